@@ -138,17 +138,12 @@ def o3(W, ob):
             desc = dnf_str(d)
             if len(d) == 1 and len(d[0]) == 1 and d[0][0][0] == 'lin':
                 terms, lo, hi = lin_view(d[0][0])
+                # k - current + check_distance >= 0   (k >= current - check_distance), possibly keeping more (constant <= 0)
                 kk = [k for k in terms if k.startswith('arg')]
-                bound = [k for k in terms if 'oldest_allowed_frame' in k]
-                if len(kk) == 1 and len(bound) == 1 and len(terms) == 2 and terms[kk[0]] == -terms[bound[0]]:
+                if len(kk) == 1 and set(terms) == {kk[0], CUR, CD} and terms[CUR] == -terms[kk[0]] and terms[CD] == terms[kk[0]]:
                     s_ = terms[kk[0]]
                     ok = (s_ == 1 and lo is not None and lo <= 0 and hi is None) or (s_ == -1 and hi is not None and hi >= 0 and lo is None)
-        # and the bound variable is current - check_distance
-        bound_ok = False
-        for l in range(len(f.locals)):
-            if f.local_name(l) == 'oldest_allowed_frame':
-                v = key(cx.expr_place(Place({'l': l, 'p': []})))
-                bound_ok = v == '(%s Sub %s)' % (CUR, CD)
+        bound_ok = ok
         ob.check(ok and bound_ok, 'checksums_consistent|window', 'the history keeps every frame >= current - check_distance (the whole comparison range)',
                  'the history prune keeps `%s` with bound ok=%s: frames of the comparison range could lose their first checksum' % (desc, bound_ok), where(f, t.line))
 
